@@ -455,8 +455,18 @@ func (k *c12Case) edgeAlphabet(big bool) []s2.Point {
 		c12Unit(r.Center.Mul(-1)),   // antipode of the centre
 		c12Unit(n0),                 // pole of edge 0 (pi/2 from it)
 	}
+	// long edges (more than 90 degrees): one endpoint within 90 degrees of the whole cell, the other
+	// beyond, the interior passing through / next to the antipode of the cell — the only configuration
+	// in which the maximum over the edge is attained in its interior although one endpoint is "near"
+	ctr := c12Unit(r.Center)
+	tan := c12Unit(r.V[0].Sub(ctr.Mul(ctr.Dot(r.V[0]))))
+	along := func(deg float64, lift float64) s2.Point {
+		a := deg * math.Pi / 180
+		return c12Unit(ctr.Mul(math.Cos(a)).Add(tan.Mul(math.Sin(a))).Add(ctr.Cross(tan.Vector).Mul(lift)))
+	}
+	out = append(out, along(60, 0), along(205, 0), along(215, 0.02))
 	if big {
-		out = append(out, pt(um, r.VHi+wv/2), c12Unit(r.V[2].Mul(-1)), c12Unit(r3.Vector{X: 1, Y: 1, Z: 1}), pt(r.UHi, vm))
+		out = append(out, pt(um, r.VHi+wv/2), c12Unit(r.V[2].Mul(-1)), c12Unit(r3.Vector{X: 1, Y: 1, Z: 1}), pt(r.UHi, vm), along(30, 0.01), along(170, 0))
 	}
 	return out
 }
